@@ -4,7 +4,7 @@
 harness.cpp instantiates every operation for ~60 (element type, capacity) pairs; as one translation unit that is
 about a minute of compile time.  This wrapper compiles the SAME source once per part (-DC01_PART=k, k < C01_NPARTS),
 at most C01_JOBS (default 4) compilers at a time, and links the objects.  It accepts the g++ command line the engine
-builds:   pcxx.py <flags...> -DC01_NPARTS=14 <src>.cpp -o <exe>
+builds:   pcxx.py <flags...> -DC01_NPARTS=15 <src>.cpp -o <exe>
 A part that fails to compile is replaced by a stub that reports the compiler's first error per case (see below); the full
 diagnostics go to <exe>.compile-errors.txt and to stderr.
 """
@@ -59,7 +59,9 @@ def main(argv):
     # flavours answer `harness-does-not-compile part<k>: <first compiler error>` for every case, so that the run reports a
     # concrete input together with the fact that it is the BUILD that broke, and all other flavours still run.  Part 0
     # (main, parser, reference leg) has no stand-in: without it there is no executable.
-    errlog = out + ".compile-errors.txt"
+    # (the engine builds under <dir>/.tmp-<pid>-<name>-<key> and renames to <dir>/h-<name>-<key>: the log goes next to the final name)
+    m = re.match(r"\.tmp-\d+-(.*)$", os.path.basename(out))
+    errlog = (os.path.join(os.path.dirname(out), "h-" + m.group(1)) if m else out) + ".compile-errors.txt"
     if os.path.exists(errlog):
         os.unlink(errlog)
     if failed:
